@@ -108,9 +108,15 @@ def lake_build(targets):
         return p.returncode == 0, p.stdout.decode(errors="replace")
 
 
+def prop_modules(pid):
+    """every module CmProps/<pid>*.lean (a property's theorems may be spread over several files)"""
+    d = os.path.join(LEAN, "CmProps")
+    return sorted("CmProps." + f[:-5] for f in os.listdir(d) if f.endswith(".lean") and re.fullmatch(re.escape(pid) + r"[A-Za-z_]*", f[:-5]))
+
+
 def audit(pid):
     """axioms of every theorem in namespace CmProps.<pid>: {name: [axioms]}"""
-    src = "import CmAudit\nimport CmProps.%s\n#audit_ns CmProps.%s\n" % (pid, pid)
+    src = "import CmAudit\n" + "".join("import %s\n" % m for m in prop_modules(pid)) + "#audit_ns CmProps.%s\n" % pid
     with _Lock():
         p = subprocess.run(["lake", "env", "lean", "--stdin"], cwd=LEAN, input=src.encode(),
                            stdout=subprocess.PIPE, stderr=subprocess.STDOUT, timeout=1200)
@@ -126,14 +132,15 @@ def audit(pid):
 def declared_theorems(pid):
     """theorem names declared in CmProps/<pid>.lean (textually), so that a theorem that no longer
     builds is still counted as an obligation."""
-    p = os.path.join(LEAN, "CmProps", pid + ".lean")
-    if not os.path.exists(p):
-        return []
-    body = _strip_comments(open(p, encoding="utf-8").read())
     names = []
-    for m in re.finditer(r"^\s*(private\s+)?theorem\s+([A-Za-z_][\w.']*)", body, re.M):
-        if not m.group(1):
-            names.append("CmProps.%s.%s" % (pid, m.group(2)))
+    for mod in prop_modules(pid):
+        p = os.path.join(LEAN, "CmProps", mod.split(".")[1] + ".lean")
+        body = _strip_comments(open(p, encoding="utf-8").read())
+        if not re.search(r"^namespace\s+CmProps\." + pid + r"\s*$", body, re.M):
+            continue
+        for m in re.finditer(r"^\s*(private\s+)?theorem\s+([A-Za-z_][\w.']*)", body, re.M):
+            if not m.group(1):
+                names.append("CmProps.%s.%s" % (pid, m.group(2)))
     return names
 
 
@@ -148,7 +155,7 @@ def proof_status(pid, regenerate=None):
     ok_drv, out_drv = lake_build(["cmmodel", "CmAudit"])
     if not ok_drv:
         raise InfraError("model driver does not build:\n" + out_drv[-3000:])
-    ok, out = lake_build(["CmProps." + pid])
+    ok, out = lake_build(prop_modules(pid) or ["CmProps." + pid])
     declared = declared_theorems(pid)
     st = {"build_ok": ok, "forbidden": forb, "broken": [], "theorems": {}, "build_tail": ""}
     if not ok:
